@@ -5,8 +5,8 @@
 (* (n = 2, 3, 4; entries column-major in the tuple e), the depth d of the  *)
 (* walk and the determinant s predicted by the walk.                       *)
 (*   Init    permutation matrices (all n! of them) and their variants with *)
-(*           one row negated (for n = 4: the negated variants of the       *)
-(*           identity only)                                                *)
+(*           one row negated (for n >= NegLimit: the negated variants of   *)
+(*           the identity only)                                            *)
 (*   Next    elementary row operations: add k * row j to row i (|k| <= 2), *)
 (*           swap two rows, negate a row -- while d < Depth[n] and the     *)
 (*           entries stay within MaxEntry                                  *)
@@ -34,7 +34,7 @@
 (* per state) -- the harness evaluates every GLM function on each of them. *)
 (***************************************************************************)
 EXTENDS GlmLinAlg, TLC, Json, IOUtils
-CONSTANTS Depth2, Depth3, Depth4, MaxEntry, X2, X3, X4
+CONSTANTS Depth2, Depth3, Depth4, MaxEntry, X2, X3, X4, NegLimit
 VARIABLES n, e, d, s
 vars == <<n, e, d, s>>
 
@@ -46,7 +46,7 @@ PermMat(k, p, neg) == [i \in 1..(k * k) |-> IF p[Col(i, k)] = Row(i, k) THEN (IF
 IdPerm(k) == [i \in 1..k |-> i]
 
 Init == \E k \in {2, 3, 4} : \E p \in LAPerms(k) : \E neg \in 0..k :
-          /\ (k = 4 /\ neg # 0) => p = IdPerm(k)
+          /\ (k >= NegLimit /\ neg # 0) => p = IdPerm(k)
           /\ n = k /\ e = PermMat(k, p, neg) /\ d = 0
           /\ s = LAPermSign(p, k) * (IF neg = 0 THEN 1 ELSE -1)
 
@@ -183,6 +183,14 @@ ASSUME \A k \in -70..70 : \A f \in {F32, F64} :
           /\ LISmallIntW(Pattern(f, RoundQ(f, QI(k), 0))) = k
           /\ (k % 2 # 0 => LISmallIntW(Pattern(f, RoundQ(f, QF(k, 2), 0))) = LINotInt)
           /\ (k # 0 => LISmallIntW(Pattern(f, RoundQ(f, QI(k * 2048), 0))) = LINotInt)
+\* the fast decoder agrees with LinQ!QW / the IEEE module
+ASSUME \A f \in {F32, F64} : \A k \in -40..40 : \A dd \in {1, 2, 3, 7, 1024, 65536, 33554432} :
+          LET w == Pattern(f, RoundQ(f, QF(k * 37 + 1, dd), 0)) IN QEq(LAQOfW(w), QW(w)) /\ LAFinW(w)
+ASSUME \A w \in {<<0, 0>>, <<0, 32768>>, <<1, 0>>, <<65535, 127>>, <<0, 128>>, <<1, 128>>, <<65535, 32639>>, <<12345, 255>>, <<0, 19200>>,
+                 <<0, 0, 0, 0>>, <<0, 0, 0, 32768>>, <<1, 0, 0, 0>>, <<65535, 65535, 65535, 15>>, <<0, 0, 0, 16>>, <<1, 0, 0, 16>>,
+                 <<65535, 65535, 65535, 32751>>, <<0, 32768, 0, 16368>>, <<0, 0, 4096, 17000>>, <<4660, 22136, 39612, 49083>>} :
+          QEq(LAQOfW(w), QW(w)) /\ LAFinW(w)
+ASSUME ~LAFinW(<<0, 32640>>) /\ ~LAFinW(<<1, 65408>>) /\ ~LAFinW(<<0, 0, 0, 32752>>) /\ ~LAFinW(<<1, 0, 0, 65520>>)
 ASSUME LISmallIntW(<<0, 32768>>) = 0 /\ LISmallIntW(<<0, 32640>>) = LINotInt /\ LISmallIntW(<<1, 0>>) = LINotInt /\ LISmallIntW(<<1, 0, 0, 16368>>) = LINotInt
 ASSUME \A k \in 1..4 : /\ {LAPermTable[k][i] : i \in 1..Len(LAPermTable[k])} = LAPerms(k) /\ Len(LAPermTable[k]) = Cardinality(LAPerms(k))
                        /\ \A i \in 1..Len(LAPermTable[k]) : LASignTable[k][i] = LAPermSign(LAPermTable[k][i], k)
